@@ -1,0 +1,267 @@
+//go:build verif
+
+// Contracts for the deductive verification in /verif (govc), topic ctser (property C16).
+// This file contains comments only; it is compiled only with -tags verif and declares nothing.
+
+package ct
+
+// The preallocated error values are assigned by the package initialiser only.
+//@ global ErrInvalidVersion != nil && ErrNotEnoughBuffer != nil
+
+// ---------------------------------------------------------------- serialization.go
+
+// RFC 6962 3.1: opaque ASN.1Cert<1..2^24-1>, opaque CtExtensions<0..2^16-1>.
+//@ func checkCertificateFormat
+//@   ensures result == nil <==> (1 <= len(cert) && len(cert) <= 0xffffff)
+//@   terminates
+
+//@ func checkExtensionsFormat
+//@   ensures result == nil <==> len(ext) <= 0xffff
+//@   terminates
+
+// digitally-signed struct (RFC 5246 4.7): hash(1) signature(1) opaque signature<0..2^16-1>.
+// dsBody: everything but the length prefix; dsPrefix: the 2-byte big-endian length.
+//@ pred dsLen(ds) = 1 + 1 + 2 + len(ds.Signature)
+//@ pred dsBody(out, ds) = out[0] == uint8(ds.HashAlgorithm) && out[1] == uint8(ds.SignatureAlgorithm) && forall(k, 0, len(ds.Signature), out[4+k] == old(ds.Signature[k]))
+//@ pred dsPrefix(out, ds) = int(out[2])<<8 | int(out[3]) == len(ds.Signature)
+
+// A signature longer than 65535 bytes cannot be represented and must be refused (defect_siglen:
+// the code stores uint16(len) and succeeds). With clause [siglen] the last two clauses
+// say: on success the output is exactly hash, algorithm, 2-byte length, signature.
+//@ func marshalDigitallySignedHere
+//@   requires len(ds.Signature) + 4 <= 1<<48
+//@   requires here != nil ==> sep(here, ds.Signature)
+//@   ensures  [siglen] result1 == nil ==> len(ds.Signature) <= 0xffff
+//@   ensures  here != nil && len(here) < dsLen(ds) ==> result1 == ErrNotEnoughBuffer
+//@   ensures  (here == nil || len(here) >= dsLen(ds)) && len(ds.Signature) <= 0xffff ==> result1 == nil
+//@   ensures  result1 != nil ==> result0 == nil
+//@   ensures  result1 == nil ==> len(result0) == dsLen(ds) && (here == nil ==> fresh(result0)) && (here != nil ==> same(result0, here[:dsLen(ds)]))
+//@   ensures  result1 == nil ==> dsBody(result0, ds)
+//@   ensures  result1 == nil && len(ds.Signature) <= 0xffff ==> dsPrefix(result0, ds)
+//@   modifies elems(here, 0, ite(here == nil, 0, dsLen(ds)))
+//@   terminates
+
+//@ func MarshalDigitallySigned
+//@   requires len(ds.Signature) + 4 <= 1<<48
+//@   ensures  [siglen] result1 == nil ==> len(ds.Signature) <= 0xffff
+//@   ensures  len(ds.Signature) <= 0xffff ==> result1 == nil
+//@   ensures  result1 != nil ==> result0 == nil
+//@   ensures  result1 == nil ==> len(result0) == dsLen(ds) && fresh(result0)
+//@   ensures  result1 == nil ==> dsBody(result0, ds)
+//@   ensures  result1 == nil && len(ds.Signature) <= 0xffff ==> dsPrefix(result0, ds)
+//@   terminates
+
+// SCT (RFC 6962 3.2): version(1) log id(32) timestamp(8) extensions<0..2^16-1> digitally-signed.
+// Frame of the ...Here functions: stated as "nothing outside the array behind here changes, and
+// the bytes of here after the output keep their values" (the exact elems(here, 0, sctLen) frame
+// needs 60+ CPU s in the solver and was not stable).
+//@ pred sctLen(sct) = 1 + 32 + 8 + 2 + len(sct.Extensions) + dsLen(sct.Signature)
+//@ pred sctHead(out, sct) = out[0] == uint8(sct.SCTVersion) && forall(k, 0, 32, out[1+k] == sct.LogID[k]) && spec.be64(seq(out[33:]), 8) == sct.Timestamp && int(out[41])<<8 | int(out[42]) == len(sct.Extensions) && forall(k, 0, len(sct.Extensions), out[43+k] == old(sct.Extensions[k]))
+
+//@ func (SignedCertificateTimestamp).SerializedLength
+//@   ensures sct.SCTVersion == 0 ==> result1 == nil && result0 == sctLen(sct)
+//@   ensures sct.SCTVersion != 0 ==> result1 != nil
+//@   terminates
+
+//@ func serializeV1SCTHere
+//@   uses perreturn
+//@   requires len(sct.Signature.Signature) + len(sct.Extensions) + 47 <= 1<<48
+//@   requires here != nil ==> sep(here, sct.Signature.Signature) && sep(here, sct.Extensions)
+//@   ensures  [siglen] result1 == nil ==> len(sct.Signature.Signature) <= 0xffff
+//@   ensures  result1 == nil ==> sct.SCTVersion == 0 && len(sct.Extensions) <= 0xffff
+//@   ensures  here != nil && len(here) < sctLen(sct) ==> result1 != nil
+//@   ensures  sct.SCTVersion == 0 && here != nil && len(here) < sctLen(sct) ==> result1 == ErrNotEnoughBuffer
+//@   ensures  sct.SCTVersion == 0 && len(sct.Extensions) <= 0xffff && len(sct.Signature.Signature) <= 0xffff && (here == nil || len(here) >= sctLen(sct)) ==> result1 == nil
+//@   ensures  result1 != nil ==> result0 == nil
+//@   ensures  result1 == nil ==> len(result0) == sctLen(sct) && (here == nil ==> fresh(result0)) && (here != nil ==> same(result0, here[:sctLen(sct)]))
+//@   ensures  result1 == nil ==> sctHead(result0, sct)
+//@   ensures  result1 == nil ==> dsBody(result0[43+len(sct.Extensions):], sct.Signature)
+//@   ensures  result1 == nil && len(sct.Signature.Signature) <= 0xffff ==> dsPrefix(result0[43+len(sct.Extensions):], sct.Signature)
+//@   ensures  here != nil ==> forall(k, sctLen(sct), len(here), here[k] == old(here[k]))
+//@   modifies under(here)
+//@   terminates
+
+//@ func SerializeSCTHere
+//@   requires len(sct.Signature.Signature) + len(sct.Extensions) + 47 <= 1<<48
+//@   requires here != nil ==> sep(here, sct.Signature.Signature) && sep(here, sct.Extensions)
+//@   ensures  [siglen] result1 == nil ==> len(sct.Signature.Signature) <= 0xffff
+//@   ensures  result1 == nil ==> sct.SCTVersion == 0 && len(sct.Extensions) <= 0xffff
+//@   ensures  sct.SCTVersion == 0 && here != nil && len(here) < sctLen(sct) ==> result1 == ErrNotEnoughBuffer
+//@   ensures  sct.SCTVersion == 0 && len(sct.Extensions) <= 0xffff && len(sct.Signature.Signature) <= 0xffff && (here == nil || len(here) >= sctLen(sct)) ==> result1 == nil
+//@   ensures  result1 != nil ==> result0 == nil
+//@   ensures  result1 == nil ==> len(result0) == sctLen(sct) && (here == nil ==> fresh(result0)) && (here != nil ==> same(result0, here[:sctLen(sct)]))
+//@   ensures  result1 == nil ==> sctHead(result0, sct)
+//@   ensures  result1 == nil ==> dsBody(result0[43+len(sct.Extensions):], sct.Signature)
+//@   ensures  result1 == nil && len(sct.Signature.Signature) <= 0xffff ==> dsPrefix(result0[43+len(sct.Extensions):], sct.Signature)
+//@   ensures  here != nil ==> forall(k, sctLen(sct), len(here), here[k] == old(here[k]))
+//@   modifies under(here)
+//@   terminates
+
+//@ func SerializeSCT
+//@   requires len(sct.Signature.Signature) + len(sct.Extensions) + 47 <= 1<<48
+//@   ensures  [siglen] result1 == nil ==> len(sct.Signature.Signature) <= 0xffff
+//@   ensures  result1 == nil <==> (sct.SCTVersion == 0 && len(sct.Extensions) <= 0xffff && len(sct.Signature.Signature) <= 0xffff)
+//@   ensures  result1 != nil ==> result0 == nil
+//@   ensures  result1 == nil ==> len(result0) == sctLen(sct) && fresh(result0)
+//@   ensures  result1 == nil ==> sctHead(result0, sct)
+//@   ensures  result1 == nil ==> dsBody(result0[43+len(sct.Extensions):], sct.Signature)
+//@   ensures  result1 == nil ==> dsPrefix(result0[43+len(sct.Extensions):], sct.Signature)
+//@   terminates
+
+// TLS presentation language (RFC 5246 4.4): an unsigned integer of numBytes bytes, big-endian.
+// The bytes handed to the writer are exactly that representation, and only when the value fits.
+//@ pred fitsIn(v, n) = v >> uint(8*n) == 0
+//@ func writeUint
+//@   requires w != nil && 0 <= numBytes && numBytes <= 1<<48
+//@   loop 1 invariant 0 <= i && i <= numBytes && len(buf) == numBytes && fresh(buf)
+//@   loop 1 invariant value == old(value) >> uint(8*i)
+//@   loop 1 invariant forall(k, numBytes - i, numBytes, buf[k] == uint8(old(value) >> uint(8*(numBytes-1-k))))
+//@   at call Write assert fitsIn(old(value), numBytes) && len(arg1) == numBytes && forall(k, 0, numBytes, arg1[k] == uint8(old(value) >> uint(8*(numBytes-1-k))))
+//@   ensures  !fitsIn(value, numBytes) ==> result != nil
+//@   terminates
+
+// opaque value<0..2^(8*numLenBytes)-1> (RFC 5246 4.3): the length prefix (written by writeUint,
+// see there) followed by the bytes of value themselves; refused when the length does not fit.
+//@ func writeVarBytes
+//@   requires w != nil && 0 <= numLenBytes && numLenBytes <= 1<<48
+//@   at call Write assert same(arg1, value) && fitsIn(uint64(len(value)), numLenBytes)
+//@   ensures  !fitsIn(uint64(len(value)), numLenBytes) ==> result != nil
+//@   terminates
+
+// ---------------------------------------------------------------- serialization.go (decoders)
+//
+// The io.Reader is not modelled as a byte stream (no ghost state for readers in govc, and the
+// assumed contract of io.ReadFull says nothing about contents), so the decoders get safety
+// contracts: no panic, termination, frame, and the length bounds implied by the wire format.
+
+// numBytes big-endian bytes: the value is below 2^(8*numBytes). Nothing that existed before the
+// call changes (each byte is read into a fresh local). govc havocs the whole heap at the loop
+// head because binary.Read is called with a loop-variant argument, and ignores `loop modifies`;
+// the frame is therefore carried through the loop by one invariant per heap component
+// (unch_T: every T-typed location that existed at entry still holds its entry value).
+//@ pred unchB(p) = old(allocated(p)) ==> same(*p, old(*p))
+//@ func readUint
+//@   requires r != nil && numBytes <= 8
+//@   loop 1 invariant 0 <= i && fitsIn(l, i) && (numBytes <= 0 ==> l == 0)
+//@   loop 1 invariant forallv(p, *bool, unchB(p)) && forallv(p, *uint8, unchB(p)) && forallv(p, *uint16, unchB(p)) && forallv(p, *uint32, unchB(p)) && forallv(p, *uint64, unchB(p)) && forallv(p, *float64, unchB(p))
+//@   loop 1 invariant forallv(p, *error, unchB(p)) && forallv(p, **uint8, unchB(p)) && forallv(p, *[]uint8, unchB(p)) && forallv(p, *string, unchB(p)) && forallv(p, *fs.WalkDirFunc, unchB(p))
+//@   ensures  result1 != nil ==> result0 == 0
+//@   ensures  0 <= numBytes ==> fitsIn(result0, numBytes)
+//@   ensures  numBytes <= 0 ==> result0 == 0
+//@   terminates
+
+// The code accepts 1..8 length bytes; with 7 or 8 the announced length can exceed what make()
+// accepts (run-time panic), hence numLenBytes <= 6 here (all callers pass 2 or 3).
+//@ func readVarBytes
+//@   requires r != nil && numLenBytes <= 6
+//@   ensures  numLenBytes == 0 ==> result1 != nil
+//@   ensures  result1 != nil ==> result0 == nil
+//@   ensures  result1 == nil ==> result0 != nil && fresh(result0)
+//@   ensures  result1 == nil && numLenBytes >= 0 ==> fitsIn(uint64(len(result0)), numLenBytes)
+//@   terminates
+
+//@ func UnmarshalDigitallySigned
+//@   requires r != nil
+//@   ensures  result1 != nil ==> result0 == nil
+//@   ensures  result1 == nil ==> result0 != nil && fresh(result0) && result0.Signature != nil && fresh(result0.Signature) && len(result0.Signature) <= 0xffff
+//@   terminates
+
+//@ func deserializeSCTV1
+//@   requires r != nil && sct != nil
+//@   ensures  result == nil ==> sct.Extensions != nil && fresh(sct.Extensions) && len(sct.Extensions) <= 0xffff
+//@   ensures  result == nil ==> sct.Signature.Signature != nil && fresh(sct.Signature.Signature) && len(sct.Signature.Signature) <= 0xffff
+//@   modifies under(sct)
+//@   terminates
+
+//@ func DeserializeSCT
+//@   requires r != nil
+//@   ensures  result1 == nil ==> result0 != nil && fresh(result0) && len(result0.Extensions) <= 0xffff && len(result0.Signature.Signature) <= 0xffff
+//@   terminates
+
+// ---------------------------------------------------------------- serialization.go (signature inputs)
+//
+// RFC 6962 3.2, the input of the SCT signature:
+//   digitally-signed struct { Version sct_version; SignatureType signature_type = certificate_timestamp;
+//     uint64 timestamp; LogEntryType entry_type; select(entry_type) { case x509_entry: ASN.1Cert;
+//     case precert_entry: PreCert; } signed_entry; CtExtensions extensions; };
+// The buffer the functions write into is opaque for govc (no byte-stream model of io.Writer /
+// bytes.Buffer), so the layout is stated as the sequence of writes: the k-th write operation
+// is asserted to write exactly the k-th field of the struct, with its RFC type (binary.Write of
+// a uintN value = N/8 big-endian bytes; writeVarBytes = length-prefixed vector, see above).
+
+//@ func serializeV1CertSCTSignatureInput
+//@   at call binary.Write#1 assert typeis(arg2, Version) && unboxed(arg2, Version) == 0
+//@   at call binary.Write#2 assert typeis(arg2, SignatureType) && unboxed(arg2, SignatureType) == 0
+//@   at call binary.Write#3 assert typeis(arg2, uint64) && unboxed(arg2, uint64) == timestamp
+//@   at call binary.Write#4 assert typeis(arg2, LogEntryType) && unboxed(arg2, LogEntryType) == 0
+//@   at call writeVarBytes#1 assert same(arg1, cert) && arg2 == 3
+//@   at call writeVarBytes#2 assert same(arg1, ext) && arg2 == 2
+//@   ensures result1 == nil ==> 1 <= len(cert) && len(cert) <= 0xffffff && len(ext) <= 0xffff
+//@   ensures result1 != nil ==> result0 == nil
+//@   terminates
+
+//@ func serializeV1PrecertSCTSignatureInput
+//@   at call binary.Write#1 assert typeis(arg2, Version) && unboxed(arg2, Version) == 0
+//@   at call binary.Write#2 assert typeis(arg2, SignatureType) && unboxed(arg2, SignatureType) == 0
+//@   at call binary.Write#3 assert typeis(arg2, uint64) && unboxed(arg2, uint64) == timestamp
+//@   at call binary.Write#4 assert typeis(arg2, LogEntryType) && unboxed(arg2, LogEntryType) == 1
+//@   at call Buffer).Write#1 assert len(arg1) == 32 && forall(k, 0, 32, arg1[k] == issuerKeyHash[k])
+//@   at call writeVarBytes#1 assert same(arg1, tbs) && arg2 == 3
+//@   at call writeVarBytes#2 assert same(arg1, ext) && arg2 == 2
+//@   ensures result1 == nil ==> 1 <= len(tbs) && len(tbs) <= 0xffffff && len(ext) <= 0xffff
+//@   ensures result1 != nil ==> result0 == nil
+//@   terminates
+
+// Only v1 SCTs over a timestamped-entry leaf of type x509_entry(0) or precert_entry(1) have a
+// signature input; the fields handed on are those of the SCT and of the leaf.
+//@ func serializeV1SCTSignatureInput
+//@   at call serializeV1CertSCTSignatureInput assert arg0 == sct.Timestamp && same(arg1, entry.Leaf.TimestampedEntry.X509Entry) && same(arg2, entry.Leaf.TimestampedEntry.Extensions)
+//@   at call serializeV1PrecertSCTSignatureInput assert arg0 == sct.Timestamp && same(arg1, entry.Leaf.TimestampedEntry.PrecertEntry.IssuerKeyHash) && same(arg2, entry.Leaf.TimestampedEntry.PrecertEntry.TBSCertificate) && same(arg3, entry.Leaf.TimestampedEntry.Extensions)
+//@   ensures result1 == nil ==> sct.SCTVersion == 0 && entry.Leaf.LeafType == 0 && entry.Leaf.TimestampedEntry.EntryType <= 1 && len(entry.Leaf.TimestampedEntry.Extensions) <= 0xffff
+//@   ensures result1 == nil && entry.Leaf.TimestampedEntry.EntryType == 0 ==> 1 <= len(entry.Leaf.TimestampedEntry.X509Entry) && len(entry.Leaf.TimestampedEntry.X509Entry) <= 0xffffff
+//@   ensures result1 == nil && entry.Leaf.TimestampedEntry.EntryType == 1 ==> 1 <= len(entry.Leaf.TimestampedEntry.PrecertEntry.TBSCertificate) && len(entry.Leaf.TimestampedEntry.PrecertEntry.TBSCertificate) <= 0xffffff
+//@   ensures result1 != nil ==> result0 == nil
+//@   terminates
+
+//@ func SerializeSCTSignatureInput
+//@   ensures result1 == nil ==> sct.SCTVersion == 0 && entry.Leaf.LeafType == 0 && entry.Leaf.TimestampedEntry.EntryType <= 1 && len(entry.Leaf.TimestampedEntry.Extensions) <= 0xffff
+//@   ensures result1 == nil && entry.Leaf.TimestampedEntry.EntryType == 0 ==> 1 <= len(entry.Leaf.TimestampedEntry.X509Entry) && len(entry.Leaf.TimestampedEntry.X509Entry) <= 0xffffff
+//@   ensures result1 == nil && entry.Leaf.TimestampedEntry.EntryType == 1 ==> 1 <= len(entry.Leaf.TimestampedEntry.PrecertEntry.TBSCertificate) && len(entry.Leaf.TimestampedEntry.PrecertEntry.TBSCertificate) <= 0xffffff
+//@   ensures result1 != nil ==> result0 == nil
+//@   terminates
+
+// RFC 6962 3.5, the input of the STH signature:
+//   digitally-signed struct { Version version; SignatureType signature_type = tree_hash;
+//     uint64 timestamp; uint64 tree_size; opaque sha256_root_hash[32]; } TreeHeadSignature;
+// (the type is written zcrypto_ct.Version because a bare Version would name the field sth.Version here)
+//@ func serializeV1STHSignatureInput
+//@   at call binary.Write#1 assert typeis(arg2, zcrypto_ct.Version) && unboxed(arg2, zcrypto_ct.Version) == 0
+//@   at call binary.Write#2 assert typeis(arg2, SignatureType) && unboxed(arg2, SignatureType) == 1
+//@   at call binary.Write#3 assert typeis(arg2, uint64) && unboxed(arg2, uint64) == sth.Timestamp
+//@   at call binary.Write#4 assert typeis(arg2, uint64) && unboxed(arg2, uint64) == sth.TreeSize
+//@   at call binary.Write#5 assert typeis(arg2, SHA256Hash) && same(unboxed(arg2, SHA256Hash), sth.SHA256RootHash)
+//@   ensures result1 == nil ==> sth.Version == 0
+//@   ensures result1 != nil ==> result0 == nil
+//@   terminates
+
+//@ func SerializeSTHSignatureInput
+//@   ensures result1 == nil ==> sth.Version == 0
+//@   ensures result1 != nil ==> result0 == nil
+//@   terminates
+
+// ---------------------------------------------------------------- serialization.go (Merkle tree leaf decoders)
+// Safety contracts as for the other decoders (RFC 6962 3.4: CtExtensions<0..2^16-1>). Facts about
+// fields read earlier (entry type, version, leaf type) do not survive: the assumed contract of
+// binary.Read lets the whole object that contains its target change.
+
+//@ func ReadTimestampedEntryInto
+//@   requires r != nil && t != nil
+//@   ensures  result == nil ==> t.Extensions != nil && fresh(t.Extensions) && len(t.Extensions) <= 0xffff
+//@   modifies under(t)
+//@   terminates
+
+//@ func ReadMerkleTreeLeaf
+//@   requires r != nil
+//@   ensures  result1 != nil ==> result0 == nil
+//@   ensures  result1 == nil ==> result0 != nil && fresh(result0) && len(result0.TimestampedEntry.Extensions) <= 0xffff
+//@   terminates
